@@ -235,7 +235,7 @@ WORDS = ["displayName", "guestOS", "memsize", "numvcpus", "scsi0:0.fileName", "s
 VALS = ["TRUE", "FALSE", "Encrypted VM", "disk 1.vmdk", "564d 3a 11", "ubuntu-64", "4096", "a=b=c", "x # y",
         "naïve café", "日本語のVM", "tab\there", "", "0", "type=key:cipher=AES-256:key=AAAA", "C:\\vm\\d.vmdk",
         # characters some line splitters take for line ends; the format's only line end is the newline
-        "line\u2028sep", "para\u2029sep", "next\x85line", "form\x0cfeed", "vert\x0btab", "fs\x1cgs\x1drs\x1e"]
+        "line\u2028sep", "para\u2029sep", "next\x85line", "form\x0cfeed", "vert\x0btab", "fs\x1cgs\x1drs\x1eus"]
 PASSES = ["password", "correct horse battery staple", "p", "Pässwörd", "пароль", "🔑key", "pass word ", "12345678",
           "a" * 70, "x,y(z)/%41"]
 
